@@ -25,6 +25,12 @@ LEVEL_TEXT = {
             "text": "per-round obligations of replication decided on the real try_interval_replication / get_replicate_candidates / add_keys_to_replication_fetcher / add_keys bodies with symbolic distances, range and timestamps; multi-round convergence itself is not claimed"},
     "C11": {"engine": "symrt (engine D)", "technique": D_TECH, "note": D_NOTE,
             "text": "closeness decisions (sort_peers_by_address/key, get_peers_in_range, get_replicate_candidates, calculate_get_closest_peers) executed symbolically over 256-bit symbolic hashes: output order, k-nearest and range filters compared with the XOR integer by the solver"},
+    "C12": {"engine": "kani (engine K)", "technique": K_TECH, "note": "trusted: Kani/CBMC, the stubs listed per harness in evidence.coverage.harnesses (tracing no-ops, fmt::format, rmp decoder in the slicing harnesses); reduced claim: tag table, header size, decoder inverse, slicing logic; full value round trips through serde-derive+rmp are outside",
+            "text": "Kani harnesses on the real ant-protocol crate: the RecordKind tag table and decoder over all u32 tags, the rmp-encoded header bytes for all kinds, and panic-freedom / clean failure of the record decoders' slicing logic for all contents of records up to 4 bytes"},
+    "C16": {"engine": "kani (engine K) + symrt (engine D)", "technique": K_TECH + "; " + D_TECH, "note": "trusted: ruint's big-integer algorithms (modelled: u128 stubs in K, division lemma and bounded parse values in D), Kani/CBMC, cvc5 (bv-as-int), z3",
+            "text": "checked_add/checked_sub decided by CBMC on fully symbolic 256-bit operands against a carry-chain reference; from_str decided by CBMC for all ASCII strings up to 3 (thorough 4) characters and by symbolic execution for digit templates with symbolic 256-bit values (overflow of units*10^18 + fraction); Display decided for all 256-bit amounts from the formatting requests recorded from the real write!"},
+    "C17": {"engine": "kani (engine K)", "technique": K_TECH, "note": "trusted: Kani/CBMC; library loops (hex::decode, serde_json, multiaddr parsing) are replaced or left outside as listed in evidence; transplanted items are copied verbatim from /repo on every run",
+            "text": "one Kani harness per parser and decoded size: panics, slice-index errors and arithmetic overflow are the assertions, inputs are symbolic bytes / full integer ranges"},
     "C10": {"engine": "symrt (engine D)", "technique": D_TECH, "note": D_NOTE,
             "text": "bounded symbolic execution of the real record_store.rs / cmd.rs arms: every path of one store operation from small reachable states (capacity 1..3), with 256-bit symbolic hashes and a symbolic responsible range, is decided by the SMT solver; burst, clean-up threshold and restart harnesses"},
 }
